@@ -249,3 +249,71 @@ func VerifC16Not() {
 
 // verifC16known marks the inputs of the finding C16-index-below-minus-n (`[k]` with k < -n).
 func verifC16known(pred bool) { rt.KnownFinding("C16-index-below-minus-n", pred) }
+
+// VerifC16MapMulti: `[k1 k2]` on a map: every key that is in the map as written comes back with
+// exactly its value (as a list in order, or as an object under the two keys,
+// depending on the module's language version).
+func VerifC16MapMulti() {
+	pool := []string{"a", "A", "ab", "AB", "Ab", "b", "B"}[:rt.Param("keys")]
+	m := map[string]any{}
+	vals := map[string]string{}
+	for _, k := range pool {
+		if rt.Choice("has_"+k, 2) == 1 {
+			vals[k] = rt.String("value", 1)
+			m[k] = vals[k]
+		}
+	}
+	keys := make([]string, 2)
+	found := make([]bool, 2)
+	want := make([]string, 2)
+	for j := range keys {
+		nk := 1 + rt.Choice("key_len", rt.Param("keylen"))
+		key := rt.String("key", nk)
+		for i := 0; i < nk; i++ {
+			rt.Assume(rt.And(key[i] >= ' ', key[i] <= '~'))
+			rt.Assume(rt.And(key[i] != '/', key[i] != '['))
+		}
+		keys[j] = key
+		for k, val := range vals {
+			if key == k {
+				found[j], want[j] = true, val
+			}
+		}
+	}
+	p := verifC16proc(false)
+	obj := any(m)
+	var got any
+	err := IndexTemplateObject(p, []string{keys[0], keys[1]}, &obj, func(x any) ([]byte, error) {
+		got = x
+		return []byte("<marshalled>"), nil
+	})
+	rt.Reach("map-multi-returned")
+	if found[0] && found[1] {
+		rt.Reach("map-multi-present")
+		rt.Assert(err == nil, "[k1 k2] failed although both keys are in the map")
+	}
+	if err != nil {
+		return
+	}
+	// whatever murex does for a key that is not in the map as written (it tries other
+	// spellings), a key that IS in the map must come back with that key's value
+	switch x := got.(type) {
+	case []any:
+		rt.Assert(len(x) == 2, "[k1 k2] did not return two values")
+		for j := range keys {
+			if found[j] && len(x) == 2 {
+				v, ok := x[j].(string)
+				rt.Assert(ok && v == want[j], "[k1 k2] did not return the value of a key that is in the map")
+			}
+		}
+	case map[string]any:
+		for j := range keys {
+			if found[j] && (keys[0] != keys[1] || j == 1) {
+				v, ok := x[keys[j]].(string)
+				rt.Assert(ok && v == want[j], "[k1 k2] did not return the value of a key that is in the map under that key")
+			}
+		}
+	default:
+		rt.Fail("[k1 k2] on a map handed neither a list nor an object to the marshaller")
+	}
+}
